@@ -17,6 +17,7 @@ class UnbinnedFit(FitBase):
     MODEL_FUNCTION_TYPE = ModelFunctionBase
     PLOT_ADAPTER_TYPE = UnbinnedPlotAdapter
     RESERVED_NODE_NAMES = {"data", "model", "cost", "parameter_values", "parameter_constraints"}
+    _BASIC_ERROR_NAMES = {"data_error", "model_error", "data_cov_mat", "model_cov_mat"}
 
     _STRING_TO_COST_FUNCTION = STRING_TO_COST_FUNCTION
 
